@@ -210,7 +210,7 @@ impl Prop for C16 {
 	}
 	fn budget(&self, tier: Tier) -> (u64, u64) {
 		match tier {
-			Tier::Quick => (8_000, 90),
+			Tier::Quick => (5_000, 90),
 			Tier::Thorough => (150_000, 1200),
 		}
 	}
@@ -226,6 +226,16 @@ impl Prop for C16 {
 		};
 		let mut spec = container::gen_filespec(rng, &profile);
 		spec.end = End::IntoInner;
+		// one workload in twelve carries a block of several KiB, so that a write takes many partial accepts
+		if spec.schema == crate::ast::Ty::Bytes || rng.chance(1, 12) {
+			spec.schema = crate::ast::Ty::Bytes;
+			spec.ops = vec![
+				container::Op::Blob { len: 100 + rng.below(300) as u32, seed: rng.next_u64(), compressible: true },
+				container::Op::Blob { len: 3000 + rng.below(14_000) as u32, seed: rng.next_u64(), compressible: rng.bool() },
+				container::Op::FinishBlock,
+				container::Op::Blob { len: rng.below(50) as u32, seed: rng.next_u64(), compressible: false },
+			];
+		}
 		Scn {
 			spec,
 			cfgs: Cfgs::Enumerate {
